@@ -112,7 +112,7 @@ def stepCtxPos : StepOut → Pos
   | .stop ctx _ => ctx.pos
 
 theorem liftTok_ctxPos (hist : List Tok) (stack : List StackItem) (res : List Tree) (slice : Option Slice)
-    (r : Ctx × Outcome Tok) (k : Option (Option Slice)) : stepCtxPos (liftTok hist stack res slice r k) = r.1.pos := by
+    (r : Ctx × Outcome Tok) (k : Option (Option Slice × Nat)) : stepCtxPos (liftTok hist stack res slice r k) = r.1.pos := by
   unfold liftTok
   split
   · simp only [stepCtxPos]; split <;> rfl
